@@ -94,6 +94,41 @@ Theorem C07_tabintp_valid_converts : forall pts x,
 Proof. exact tabintp_valid_converts. Qed.
 Print Assumptions C07_tabintp_valid_converts.
 
+(* TEXTTABLE: a text without COMPU-INVERSE-VALUE is encoded by an internal value of its own scale -- limits of interval
+   type OPEN are honoured --, is read back as that text when no other scale claims the value, and a text declared valid
+   is encoded *)
+Theorem C07_texttable_encodes_inside : forall scales pd idf t s x,
+  filter (fun s => text_eqb (tconst s) t) scales = [s] -> tinv s = None ->
+  p2i (MTextTable scales pd idf) (CText t) = COk (CInt x) -> tscale_applies s x = true.
+Proof. exact texttable_encodes_inside. Qed.
+Print Assumptions C07_texttable_encodes_inside.
+
+Theorem C07_texttable_roundtrip : forall scales pd idf t s x,
+  filter (fun s => text_eqb (tconst s) t) scales = [s] -> tinv s = None ->
+  p2i (MTextTable scales pd idf) (CText t) = COk (CInt x) ->
+  filter (fun s' => tscale_applies s' x) scales = [s] ->
+  exists t', tconst s = Some t' /\ bytes_eqb t' t = true /\ i2p (MTextTable scales pd idf) (CInt x) = COk (CText t').
+Proof. exact texttable_roundtrip. Qed.
+Print Assumptions C07_texttable_roundtrip.
+
+Theorem C07_texttable_valid_encodes : forall scales pd t s,
+  filter (fun s => text_eqb (tconst s) t) scales = [s] ->
+  valid_phys (MTextTable scales pd None) (CText t) = true ->
+  exists x, p2i (MTextTable scales pd None) (CText t) = COk (CInt x).
+Proof. exact texttable_valid_encodes. Qed.
+Print Assumptions C07_texttable_valid_encodes.
+
+Example C07_texttable_open_limit_example :
+  let lim v t := Some (mkLimit (Some v) (Some t)) in
+  let low := mkT (lim 0 IClosed) (lim 5 IClosed) (Some [108]) None in
+  let high := mkT (lim 5 IOpen) (lim 10 IClosed) (Some [104]) None in
+  let none := mkT (lim 20 IOpen) (lim 21 IOpen) (Some [110]) None in
+  let m := MTextTable [low; high; none] None None in
+  p2i m (CText [104]) = COk (CInt 6) /\ i2p m (CInt 6) = COk (CText [104]) /\ i2p m (CInt 5) = COk (CText [108]) /\
+  p2i m (CText [110]) = CErr CEncode /\ valid_phys m (CText [110]) = false /\ valid_phys m (CText [104]) = true.
+Proof. exact texttable_open_limit_example. Qed.
+Print Assumptions C07_texttable_open_limit_example.
+
 Theorem C07_nonvacuous :
   seg_i2p (mkSeg 1 3 2 None None 0) 3 = 5 /\ seg_p2i (mkSeg 1 3 2 None None 0) 5 = 3 /\
   rdiv 9 2 = 4 /\ rdiv 7 2 = 4 /\ rdiv (-9) 2 = -4 /\
